@@ -14,6 +14,8 @@ R-C12.2  a returned substitution, closed under itself, makes both sides identica
          inference variables of the inputs and extends the starting substitution;
 R-C12.3  occurs check: `?A ~ (?A,)`-style pairs fail (and terminate);
 R-C12.4  constructor exhaustiveness: every member of the Type and Const unions occurs in an arm.
+R-C12.5  solutions are threaded through multi-part checks (see c12_threading.py): the expected
+         type of call argument / tuple element i+1 is taken under the solutions of parts <= i.
 Not decided: most-generality beyond this universe, unbounded nesting depth.
 """
 
@@ -290,3 +292,7 @@ def run(ctx: Ctx) -> None:
     ok = isinstance(last.pattern, ast.MatchAs) and last.pattern.pattern is None and len(last.body) == 1 and isinstance(last.body[0], ast.Return) \
         and isinstance(last.body[0].value, ast.Constant) and last.body[0].value.value is None
     ctx.check(ok, "R-C12.4", f"{uf.qualname}#default-arm-fails", where, {"last_arm": ast.unparse(last.pattern)}, "mismatching constructors must not unify")
+
+    # ------------------------------------------------------------ R-C12.5 solutions threaded through multi-part checks
+    from . import c12_threading
+    c12_threading.run(ctx)
